@@ -189,7 +189,7 @@ def ob_roundtrip(var_i: int, val_i: int) -> Optional[str]:
 # (b) the detyped mapping handed to a child reflects the values at launch time
 # ----------------------------------------------------------------------------
 OPS = ["set_dbg_0", "set_dbg_false", "set_u_1", "set_u_true", "set_list", "mutate_held", "reassign_held", "append_via_get",
-       "del_u", "swap_enter", "swap_exit", "mask_enter", "launch", "read_list", "set_same_list", "ov2_enter", "ovmask_enter"]
+       "del_u", "swap_enter", "swap_exit", "mask_enter", "launch", "read_list", "set_same_list", "ov2_enter", "ovmask_enter", "caller_edits_mapping"]
 
 
 def _launch(env):
@@ -253,6 +253,11 @@ def _history(ops):
             cm = env.swap(overlay={"OV": DELETE_VAR})
             cm.__enter__()
             stack.append(cm)
+        elif op == "caller_edits_mapping":
+            # what the git/hg prompt fields and xexec do with the mapping they were handed: add a setting for *their* child
+            m = env.detype()
+            m["VF_FOR_ONE_CHILD"] = "0"
+            m["U"] = "edited-by-caller"
         elif op == "swap_exit":
             if stack:
                 stack.pop().__exit__(None, None, None)
@@ -281,6 +286,11 @@ def _history(ops):
                 stack.pop().__exit__(None, None, None)
             kind = "held-reference-mutation" if op == "mutate_held" and set(diff) == {"LIBPATH"} else "stale-child-env"
             return f"{kind}: after {trail}: child would receive {diff} (cached, current)"
+        if "VF_FOR_ONE_CHILD" in got:
+            while stack:
+                stack.pop().__exit__(None, None, None)
+            return (f"stale-child-env: after {trail}: a caller's private edit of the mapping it got from detype() (VF_FOR_ONE_CHILD, as the "
+                    f"git prompt field does with GIT_OPTIONAL_LOCKS) is handed to every later child: {got.get('VF_FOR_ONE_CHILD')!r}, U={got.get('U')!r}")
         for k in masked:
             if k in got:
                 while stack:
@@ -343,10 +353,10 @@ OBLIGATIONS = [
                         "C10-single-empty-path-entry": _region_single_empty},
                symbolic="variable index, value index"),
     Obligation("child_env_cache", ob_cache,
-               bounds="histories of 1..3 (quick) / 4 (thorough) operations out of 17 (typed and untyped assignments with equal-comparing values, "
+               bounds="histories of 1..3 (quick) / 4 (thorough) operations out of 18 (typed and untyped assignments with equal-comparing values, "
                       "list assignment, in-place mutation through a held reference and through a read, delete, swap / mask / overlay enter "
-                      "(two overlays naming the same variables, an overlay mask) and exit); after every operation the mapping a child would receive is compared with a recomputation from scratch",
-               pre=["0 <= o0 < 17", "0 <= o1 < 17", "0 <= o2 < 17", "0 <= o3 < 17"],
+                      "(two overlays naming the same variables, an overlay mask) and exit, a caller editing the mapping it was handed); after every operation the mapping a child would receive is compared with a recomputation from scratch",
+               pre=["0 <= o0 < 18", "0 <= o1 < 18", "0 <= o2 < 18", "0 <= o3 < 18"],
                parts={"quick": [dict(n=1), dict(n=2)] + [dict(n=3, o0=i) for i in range(len(OPS))],
                       "thorough": [dict(n=1), dict(n=2)] + [dict(n=3, o0=i) for i in range(len(OPS))]
                                   + [dict(n=4, o0=i, o1=j) for i in range(len(OPS)) for j in range(len(OPS))]},
